@@ -240,4 +240,18 @@ example : resolveTarget exDeps 4 ⟨"c", none, 2⟩ = .ok ⟨"c", "/wd-a", some 
 /-- a two-cycle is rejected -/
 example : checkStacked [⟨"x", "t", none, some "y"⟩, ⟨"y", "t", none, some "x"⟩] = .error .circular := by rfl
 
+/-- **`get` hands out its default only for an unknown path**: when some prefix of the path is not a node of the tree the
+default is returned; when the node exists the result is the node's attribute (or `None`) whatever the default — the
+asymmetry of `return current_node.get(name)` in the code as written. -/
+theorem get_default_only_for_unknown_path {V : Type} (t : Trie V) (p : Path) (k : Kind) (d : Option V) :
+    (p ≠ [] → (prefixes p).all (· ∈ t.nodes) = false → t.get p k d = d) ∧
+    ((p = [] ∨ (prefixes p).all (· ∈ t.nodes) = true) → t.get p k d = t.get p k none) := by
+  constructor
+  · intro h1 h2; simp [Trie.get, h1, h2]
+  · rintro (h | h)
+    · simp [Trie.get, h]
+    · by_cases hp : p = []
+      · simp [Trie.get, hp]
+      · simp [Trie.get, hp, h]
+
 end SFV.C28
